@@ -4,7 +4,9 @@
  *   FI_PATH   substring; only paths containing it (and fds opened on them) are monitored
  *   FI_LOG    file that receives one line per monitored operation: "<n> <kind> <path> <size>"
  *   FI_AT     1-based index of the monitored operation at which to act (0 = never)
- *   FI_MODE   err | sticky | kill_before | kill_after | kill_torn
+ *   FI_MODE   err | sticky | short | kill_before | kill_after | kill_torn
+ *             (short: the k-th operation, if a write, stores half of its bytes and returns that count; every later
+ *              write fails with the errno - what a full disk or a file size limit does)
  *   FI_ERRNO  errno for err/sticky (default ENOSPC)
  *   FI_AT2    optional index of a second operation that fails once (fault sequences)
  *   FI_ARMED  operations are only counted while getenv("FI_ARMED") is "1" (set from Python via os.environ)
@@ -65,7 +67,7 @@ static void logline(const char *kind, const char *path, long size) {
     }
 }
 
-/* returns: 0 proceed normally, 1 fail with errno, 2 kill before, 3 kill after, 4 torn */
+/* returns: 0 proceed normally, 1 fail with errno, 2 kill before, 3 kill after, 4 torn, 5 short write */
 static int decide(const char *kind, const char *path, long size, int is_write) {
     if (!armed()) return 0;
     op_count++;
@@ -84,6 +86,7 @@ static int decide(const char *kind, const char *path, long size, int is_write) {
     if (at <= 0 || op_count != at) return 0;
     if (!strcmp(mode, "err")) return 1;
     if (!strcmp(mode, "sticky")) { sticky_on = 1; return 1; }
+    if (!strcmp(mode, "short")) { sticky_on = 1; return is_write ? 5 : 1; }
     if (!strcmp(mode, "kill_before")) return 2;
     if (!strcmp(mode, "kill_after")) return 3;
     if (!strcmp(mode, "kill_torn")) return is_write ? 4 : 2;
@@ -146,6 +149,7 @@ ssize_t write(int fd, const void *buf, size_t n) {
     if (!p) return real_write(fd, buf, n);
     int d = decide("write", p, (long)n, 1);
     if (d == 1) { errno = the_errno(); return -1; }
+    if (d == 5) { if (n > 1) return real_write(fd, buf, n / 2); errno = the_errno(); return -1; }
     if (d == 2) die();
     if (d == 4) { if (n > 1) real_write(fd, buf, n / 2); die(); }
     ssize_t r = real_write(fd, buf, n);
@@ -160,6 +164,7 @@ ssize_t pwrite(int fd, const void *buf, size_t n, off_t off) {
     if (!p) return real(fd, buf, n, off);
     int d = decide("pwrite", p, (long)n, 1);
     if (d == 1) { errno = the_errno(); return -1; }
+    if (d == 5) { if (n > 1) return real(fd, buf, n / 2, off); errno = the_errno(); return -1; }
     if (d == 2) die();
     if (d == 4) { if (n > 1) real(fd, buf, n / 2, off); die(); }
     ssize_t r = real(fd, buf, n, off);
@@ -173,6 +178,7 @@ ssize_t pwrite64(int fd, const void *buf, size_t n, off_t off) {
     if (!p) return real(fd, buf, n, off);
     int d = decide("pwrite", p, (long)n, 1);
     if (d == 1) { errno = the_errno(); return -1; }
+    if (d == 5) { if (n > 1) return real(fd, buf, n / 2, off); errno = the_errno(); return -1; }
     if (d == 2) die();
     if (d == 4) { if (n > 1) real(fd, buf, n / 2, off); die(); }
     ssize_t r = real(fd, buf, n, off);
